@@ -13,6 +13,7 @@ from __future__ import annotations
 
 import enum
 import struct
+from collections.abc import Mapping
 from typing import Any, Iterable, Sequence
 
 
@@ -37,7 +38,7 @@ def data_key(d: Any) -> Any:
         return ("t", tuple(data_key(x) for x in d))
     if isinstance(d, (set, frozenset)):
         return ("S", tuple(sorted((data_key(x) for x in d), key=repr)))
-    if isinstance(d, dict):
+    if isinstance(d, Mapping):   # dict, immutabledict (DictionaryAttr payload), ...
         return ("d", tuple(sorted(((data_key(k), data_key(v)) for k, v in d.items()), key=repr)))
     if d is None:
         return ("n",)
